@@ -125,7 +125,7 @@ GRIDS = [("quadratic", 30, 3.0), ("geometric", 30, 0), ("irregular", 30, 3.0), (
 def cases_S(tier, seed):
     thorough = tier == "thorough"
     nxs = [3, 4, 5, 8, 16, 50, 150, 201, 400, 1000] if thorough else [3, 4, 8, 50, 150, 401]
-    tabs = ["T_ship_gas", "A_kink", "A_fall", "S_zdip", "S_zdip_desc", "S_zdip_f32"] + (["T_hay", "T_lib", "T_ship_oil", "A_jump", "A_kink1e3", "A_fall"] if thorough else ["A_jump"])
+    tabs = ["T_ship_gas", "A_kink", "A_fall", "S_zdip", "S_zdip_desc", "S_zdip_f32", "Simple_liquid"] + (["T_hay", "T_lib", "T_ship_oil", "A_jump", "A_kink1e3", "A_fall"] if thorough else ["A_jump"])
     pairs = [(100.0, 8000.0), (7000.0, 8000.0), (7990.0, 8000.0), (4003.3, 7703.7)]  # the last: both pressures between rows
     if seed:
         off = seed_offset(seed)
@@ -158,6 +158,12 @@ def cases_S(tier, seed):
             continue
         out.append({"part": "S", "cls": cls_, "table": tab_, "p_f": 1000.0, "p_i": 8000.0, "nx": nx, "grid": g, "n": n, "T": T,
                     "sched": sc, "seed": seed, "t0": t0})
+    # the public field `nx` reassigned on a live object before the run (a refinement ladder walked on one object): the
+    # stored field has the new node count, so the update must use the new mesh constant
+    for cls_, tab_, (nx0, nx1), (g, n, T) in itertools.product(("ideal", "single"), ("T_ship_gas",), ((20, 40), (50, 8), (8, 9)),
+                                                                (("quadratic", 20, 3.0), ("irregular", 20, 3.0))):
+        out.append({"part": "S", "cls": cls_, "table": tab_ if cls_ != "ideal" else None, "p_f": 1000.0, "p_i": 8000.0, "nx": nx1,
+                    "nx_built": nx0, "grid": g, "n": n, "T": T, "sched": "scalar", "seed": seed})
     out.sort(key=lambda c: c["nx"] * c["n"])
     return out
 
@@ -168,7 +174,9 @@ def _setup(case):
         t = t + case["t0"]  # a clock that does not start at zero: only the increments enter the update
     p_min = tables.table_range(case["table"])[0] if case["table"] else 0.0
     sched = sim.schedule(case["sched"], len(t), case["p_f"], case["p_i"], p_min)
-    res = sim.make_reservoir(case["cls"], case["nx"], case["p_f"], case["p_i"], case["table"])
+    res = sim.make_reservoir(case["cls"], case.get("nx_built", case["nx"]), case["p_f"], case["p_i"], case["table"])
+    if "nx_built" in case:
+        res.nx = case["nx"]
     m_i = 1.0 if case["cls"] == "ideal" else float(res.fluid.m_i)
     return res, t, sched, m_i
 
